@@ -432,6 +432,14 @@ macro_rules! backend_impl {
                 if let Some(b) = *g {
                     return b;
                 }
+                let b: &'static BddCtx = Box::leak(make_bdd_ctx(c));
+                *g = Some(b);
+                b
+            }
+
+            /// A private, never shared before, key bundle (lazily filled caches inside a key would
+            /// otherwise survive from run to run and hide first-touch effects).
+            pub fn make_bdd_ctx(c: &'static Ctx) -> Box<BddCtx> {
                 let module = &c.module;
                 let mut source_xs = Source::new([11u8; 32]);
                 let mut source_xa = Source::new([12u8; 32]);
@@ -453,15 +461,13 @@ macro_rules! backend_impl {
                 if c.n >= 16 {
                     word16.encrypt_sk(module, 0xC35Au16, &c.sk_prep, &genc, &mut source_xe, &mut source_xa, scratch.borrow());
                 }
-                let b: &'static BddCtx = Box::leak(Box::new(BddCtx {
+                Box::new(BddCtx {
                     layout,
                     key: prepared,
                     word8,
                     word16,
                     block_size,
-                }));
-                *g = Some(b);
-                b
+                })
             }
 
             fn inputs_hash(c: &Ctx) -> u64 {
@@ -487,6 +493,7 @@ macro_rules! backend_impl {
             }
 
             crate::c12::ops::core_ops_impl!(BE);
+            crate::c12::ops2::core_ops2_impl!(BE);
 
             pub struct Ops;
             pub static B: Ops = Ops;
@@ -549,6 +556,21 @@ macro_rules! backend_impl {
                     macro_rules! go {
                         ($t:ty, $word:expr) => {{
                             let mut res: FheUintPrepared<DeviceBuf<BE>, $t, BE> = FheUintPrepared::alloc_from_infos(&c.module, &c.ggsw_infos);
+                            {
+                                // an already populated receiver: bits outside the prepared window must end up
+                                // exactly as the single-threaded call leaves them, not merely "zero because fresh"
+                                let enc = EncryptionLayout::new_from_default_sigma(c.ggsw_infos).unwrap();
+                                let mut big: ScratchOwned<BE> = ScratchOwned::alloc(1 << 20);
+                                res.encrypt_sk(
+                                    &c.module,
+                                    <$t>::MAX ^ 0x35,
+                                    &c.sk_prep,
+                                    &enc,
+                                    &mut Source::new([21u8; 32]),
+                                    &mut Source::new([22u8; 32]),
+                                    big.borrow(),
+                                );
+                            }
                             let per_thread = c.module.fhe_uint_prepare_tmp_bytes(b.block_size, 1, &res, $word, &b.layout);
                             let declared = spec.threads * per_thread;
                             let generous = spec.threads * per_thread.next_multiple_of(64) + 4096;
@@ -598,10 +620,14 @@ macro_rules! backend_impl {
                 }
 
                 fn core_op(&self, op: &str, shape: &crate::c12::ops::Shape, w: &Window) -> RunResult {
-                    ops::core_op(op, shape, w)
+                    match ops2::core_op2(op, shape, w) {
+                        Some(r) => r,
+                        None => ops::core_op(op, shape, w),
+                    }
                 }
                 fn core_ops(&self) -> &'static [&'static str] {
-                    ops::OPS
+                    static ALL: std::sync::OnceLock<Vec<&'static str>> = std::sync::OnceLock::new();
+                    ALL.get_or_init(|| ops::OPS.iter().chain(ops2::OPS2.iter()).copied().collect())
                 }
 
                 fn shared(&self, spec: &SharedSpec, cfg: Option<sched::Config>) -> RunResult {
@@ -618,7 +644,8 @@ macro_rules! backend_impl {
                     use poulpy_core::layouts::GLWEPlaintext;
                     use poulpy_core::{GLWEDecrypt, GLWEEncryptSk};
                     let c = ctx(spec.n, 1);
-                    let b = if spec.with_prepare { Some(bdd_ctx(c)) } else { None };
+                    let fresh_key = if spec.with_prepare { Some(make_bdd_ctx(c)) } else { None };
+                    let b: Option<&BddCtx> = fresh_key.as_deref();
                     let h0 = inputs_hash(c);
                     let f0 = module_fingerprint(c);
                     let ct_hash0 = crate::util::fnv(&c.ct_a.data().data) ^ crate::util::fnv(&c.ct_b.data().data);
@@ -680,8 +707,18 @@ macro_rules! backend_impl {
                                 }
                                 _ => {
                                     let b = b.unwrap();
+                                    // workloads with different (legal) result layouts share one prepared key
+                                    let mut gi = c.ggsw_infos;
+                                    match (*arg >> 8) % 3 {
+                                        1 => gi.dnum = Dnum(1),
+                                        2 => {
+                                            gi.base2k = Base2K(12);
+                                            gi.k = TorusPrecision(36);
+                                        }
+                                        _ => {}
+                                    }
                                     let mut res: FheUintPrepared<DeviceBuf<BE>, u8, BE> =
-                                        FheUintPrepared::alloc_from_infos(&c.module, &c.ggsw_infos);
+                                        FheUintPrepared::alloc_from_infos(&c.module, &gi);
                                     c.module
                                         .fhe_uint_prepare_custom(&mut res, &b.word8, (*arg % 8) as usize, 1, &b.key, scratch.borrow());
                                     (0..8).fold(0u64, |a, i| {
